@@ -374,8 +374,12 @@ def _steady(res, name, events, quick):
         return repr(sorted(results.items()))
     execs, outcomes, capped = e4.explore_schedules(mk, watched, 2, lambda: None, check, max_execs=400 if quick else 4000,
                                                    watch_module_code=False)
-    res['extra'].setdefault('steady_state_mutators', {})['%s.%s' % (name, events[0][1])] = execs
-    return execs, execs
+    # the same with a scheduling point at every bytecode instruction and one preemption (races inside one line)
+    e4.prime_opcodes(watched, lambda: [e4.call(e) for e in events])
+    execs2, outcomes2, capped2 = e4.explore_schedules(mk, watched, 1, lambda: None, check, max_execs=300 if quick else 3000,
+                                                      watch_module_code=False, horizon=40000, opcodes=True)
+    res['extra'].setdefault('steady_state_mutators', {})['%s.%s' % (name, events[0][1])] = execs + execs2
+    return execs + execs2, execs + execs2
 
 
 class _GlobalsWatch:
@@ -500,6 +504,62 @@ def _hashseed(res, evs, menu=('0', '1', '2', '3')):
                      'the same answer in every fresh interpreter', excinfo='', devclass='hashseed', rank=[0, len(repr(e)), repr(e)])
     res['extra']['hash_seeds'] = list(menu)
     return len(evs) * len(menu), nt
+
+
+def _steady_ws(res, name, fn, W, quick):
+    """Steady state with a large working set: after the function has been called on every documented number (bounded
+    caches are full), do calls on the first two still change module-level state?  If so, the two-thread schedules of
+    those two calls after that warm-up are explored (scheduling points in the functions naming the changed state)."""
+    import importlib
+
+    def reset():
+        e4.purge()
+        for w in W:
+            e4.call((name, fn, (w,), ()))
+    reset()
+    d0 = module_digest(name, True)
+    events = [(name, fn, (W[0],), ()), (name, fn, (W[1],), ())]
+    for e in events:
+        e4.call(e)
+    d1 = module_digest(name, True)
+    changed = sorted(k for k in set(d0) | set(d1) if d0.get(k) != d1.get(k))
+    if not changed:
+        return 1, 0
+    exp = [pristine(e) for e in events]
+    path = sys.modules[name].__file__
+
+    def mk():
+        return [lambda e=e: e4.call(e)[0] for e in events]
+
+    def check(results, taken, sched):
+        bad = [i for i in range(2) if results.get(i) != exp[i]]
+        if bad:
+            i = bad[0]
+            got = results.get(i)
+            res.viol(ID, 'schedule-changes-result', events[i][0], events[i][1],
+                     {'kind': 'steady-ws', 'events': [_enc_hist([('call', e)])[0] for e in events], 'schedule': taken,
+                      'warmup': list(W)},
+                     'two threads after %d warm-up calls: under schedule %r thread %d observed %r, in a fresh state it is %r' % (len(W), taken[:40], i, got, exp[i]),
+                     'fresh-state observation', excinfo=(got or ('none',))[0] + ('/' + str(got[1]) if got and got[0] == 'raise' else ''),
+                     devclass='steady-ws:%s.%s' % (name, fn), rank=[sum(1 for c in taken if c), len(taken), repr(taken)])
+        return repr(sorted(results.items()))
+    execs, outcomes, capped = e4.explore_schedules(mk, _GlobalsWatch(path, changed), 2, reset, check,
+                                                   max_execs=300 if quick else 3000, watch_module_code=False, horizon=20000)
+    # ... and with a scheduling point at every bytecode instruction of those functions, one preemption (a race inside
+    # one source line: `del d[next(iter(d))]`)
+    gw = _GlobalsWatch(path, changed)
+
+    def reset2():
+        reset()
+        # one more round of the two calls with instruction tracing on, so that the code objects are instrumented
+        e4.prime_opcodes(gw, lambda: [e4.call(e) for e in events + [(name, fn, (w,), ()) for w in W[2:]]])
+    execs2, outcomes2, capped2 = e4.explore_schedules(mk, gw, 1, reset2, check,
+                                                      max_execs=400 if quick else 4000, watch_module_code=False, horizon=40000,
+                                                      opcodes=True)
+    res['extra'].setdefault('working_set_mutators', {})['%s.%s %s' % (name, fn, ','.join(changed))] = execs + execs2
+    if capped or capped2:
+        res['extra'].setdefault('caps_hit', {})['steady-ws:%s' % name] = execs + execs2
+    return execs + execs2, execs + execs2
 
 
 _battery_cache = []
@@ -667,6 +727,16 @@ def work(item):
                     both = list(dict.fromkeys(vals[:3] + [s_ for s_, v in seedmod.seeds(name, 4 if quick else 8)]))
                     if name == 'stdnum.mac':
                         both = both[:3]
+                    else:
+                        # near misses: the first character replaced (an unknown type letter / leading digit): a call that
+                        # fails, or a helper fed such a number, must leave nothing behind
+                        from ..e2 import same_class
+                        v0 = vals[0]
+                        for nm in [c + v0[1:] for c in same_class(v0[0])[:3] if c != v0[0]][:2]:
+                            for hist in ([(fn, nm), ('validate', nm), (fn, nm)], [('validate', nm), (fn, nm)],
+                                         [(fn, nm), ('validate', v0)], [('validate', nm), (fn, v0)]):
+                                n += 1
+                                check_history(res, [('call', (name, f_, (x_,), ())) for f_, x_ in hist], kind)
                     for a in both:
                         for b in both:
                             n += 1
@@ -761,6 +831,12 @@ def work(item):
                 pass
             if spell:
                 n0, t0 = _firstuse(res, name, 'validate', spell, quick)
+                n += n0
+                nt += t0
+            # bounded caches: steady state after the whole documented working set
+            W = list(dict.fromkeys(v for s_, v in seedmod.seeds(name)))[:120]
+            if len(W) >= 6 and name != 'stdnum.mac':
+                n0, t0 = _steady_ws(res, name, 'validate', W, quick)
                 n += n0
                 nt += t0
             for fn in fns:
@@ -964,6 +1040,10 @@ def replay(case):
         r2 = work(('twice', j % 16, 'quick'))
         return [dict(v, sig=None) for v in r2['violations'] if v['case'].get('module') == case['module']][:1]
     events = [_dec_hist([e])[0][1] for e in case['events']]
+    if case['kind'] == 'steady-ws':
+        r2 = Result()
+        _steady_ws(r2, events[0][0], events[0][1], case['warmup'], True)
+        return [dict(v, sig=None) for v in r2['violations'][:1]]
     if case['kind'] == 'hashseed':
         r2 = Result()
         _hashseed(r2, events)
